@@ -200,8 +200,9 @@ __CPROVER_ensures(__CPROVER_return_value == 0 ==>
                      self->idim == gv_ti_val[0] && self->iband == gv_ti_val[1]) ||
                     (gv_ti_target[0] == &self->iband && gv_ti_target[1] == &self->idim &&
                      self->iband == gv_ti_val[0] && self->idim == gv_ti_val[1]))))
-/* ... whose element count idim*(iband+1) fits an int (finish_cov and CovMat::reset compute it in int) */
-__CPROVER_ensures(__CPROVER_return_value == 0 ==> self->idim <= GKC_MAXDIM)
+/* ... whose element count idim*(iband+1) fits an int (finish_cov and CovMat::reset compute it in int); exact criterion,
+   no overflow on the specification side: for positive ints  idim*(iband+1) <= INT_MAX  <=>  idim <= INT_MAX/(iband+1) */
+__CPROVER_ensures(__CPROVER_return_value == 0 ==> self->idim <= 2147483647 / (self->iband + 1))
 /* refused: located diagnostic */
 __CPROVER_ensures(__CPROVER_return_value != 0 ==> (self->state == state_error && GKF_DIAG(self)))
 //@ entry GKC_process_cov
